@@ -211,6 +211,53 @@ theorem C20_height_min [LawfulFloatLike F] (cfg : Config F) (hc : CfgOK cfg) (cl
         · exact h
       · rw [hu]; exact (bounds_newCoordinate cfg hc).1
 
+/-! ## 2b. the HeightMin floor is unconditional
+
+Peers are validated for finiteness only: a peer may report a NEGATIVE height.  Then the height delta
+`(own.Height + other.Height) * force / mag` of ApplyForce can be negative for a POSITIVE force (a push), so the floor
+`math.Max(ret.Height, config.HeightMin)` is needed on pushes as well as on pulls.  `C20_height_min` above already
+quantifies over such peers; the two statements below isolate the mechanism. -/
+
+/-- **C20 (height floor).** Whatever the force (either sign), the other coordinate (any height, negative included)
+and the random draws, ApplyForce leaves the height NaN-or-at-least-HeightMin, provided it was so before. -/
+theorem C20_height_floor_unconditional [LawfulFloatLike F] (cfg : Config F) (hm : isNaN cfg.heightMin = false)
+    (rnd : List F) (c : Coordinate F) (force : F) (other : Coordinate F)
+    (h : isNaN c.height = true ∨ le cfg.heightMin c.height = true) :
+    isNaN (applyForce cfg rnd c force other).1.height = true ∨
+      le cfg.heightMin (applyForce cfg rnd c force other).1.height = true :=
+  applyForce_height cfg rnd c force other hm h
+
+/-- ApplyForce with the floor enforced for pulls only (`if force < 0 { … math.Max … }`) — NOT what the code does -/
+def applyForceOneSided (cfg : Config F) (rnd : List F) (c : Coordinate F) (force : F) (other : Coordinate F) :
+    Coordinate F :=
+  let u := unitVectorAt rnd c.vec other.vec
+  { c with
+    vec := addv c.vec (mulv u.1.1 force),
+    height :=
+      if gt u.1.2 zeroThreshold then
+        (if lt force (zero : F) then
+          FloatLike.max (add (div (mul (add c.height other.height) force) u.1.2) c.height) cfg.heightMin
+         else add (div (mul (add c.height other.height) force) u.1.2) c.height)
+      else c.height }
+
+/-- dim 1, ErrorMax 2, CE = CC = 1/4, HeightMin 10^-5 -/
+def hfCfg : Config ERat :=
+  { dim := 1, errorMax := .fin 2, ce := .fin (1 / 4), cc := .fin (1 / 4), adjWindow := 0,
+    heightMin := .fin (1 / 100000), latencyFilterSize := 1, gravityRho := .fin 150 }
+
+/-- The one-sided floor is wrong: a fresh coordinate (height = HeightMin = 1/100000) pushed with force 10^-6 away from a
+valid peer 0.01 s away whose height is -0.005 ends with height 1/100000 - 499/10^9 < HeightMin, a finite value
+(no reset); the real ApplyForce returns exactly HeightMin.  float64 instance on the real client:
+corpus/C20/negative-peer-height-push.case. -/
+theorem C20_one_sided_floor_counterexample :
+    let cfg : Config ERat := hfCfg
+    let peer : Coordinate ERat := ⟨[.fin (1 / 100)], .fin 1, .fin 0, .fin (-(5 / 1000))⟩
+    isValid peer = true ∧
+    (applyForceOneSided cfg [] (newCoordinate cfg) (.fin (1 / 1000000)) peer).height = .fin (1 / 100000 - 499 / 1000000000) ∧
+    le cfg.heightMin (applyForceOneSided cfg [] (newCoordinate cfg) (.fin (1 / 1000000)) peer).height = false ∧
+    (applyForce cfg [] (newCoordinate cfg) (.fin (1 / 1000000)) peer).1.height = cfg.heightMin := by
+  decide +kernel
+
 /-! ## 3. rejected observations change nothing -/
 
 /-- an observation is rejected exactly when it is not acceptable -/
